@@ -248,6 +248,7 @@ func ParseTokenParam(buf []byte, offs int, param *PTokParam,
 				param.state = paramName
 				param.Name.Set(i, i)
 				param.All.Set(i, i)
+				param.Val.Reset() // no value yet (drop the previous param's)
 			}
 		case paramName:
 			switch c {
